@@ -17,14 +17,17 @@ TECHNIQUE = "property-based testing (Hypothesis) over histories of simulations a
 LEVEL_TEXT = ("generated systems; sequences of dated simulations (numeric, hourly, time zone, choice, link, list and mixed "
               "change lists; valid, failing validation, failing recomputation; dates first/interior/last/before/after/"
               "naive) and of set/reset toggles in any order and multiplicity; the baseline must be the very same objects "
-              "and graph after each construction (successful or raising) and after every reset")
+              "and graph after each construction (successful or raising) and after every reset, and afterwards ordinary edits "
+              "of the baseline must give what a fresh build gives")
 LEVEL_NOTE = "bookkeeping attributes documented as changing (previous_*, all_changes, simulation, twin markers) are excluded"
 RULE = ("Hypothesis draws a system spec and 1-3 simulations, each = 1-3 simple edits (from the edit algebra, optionally "
         "an invalid value or a capacity-exceeding one), a date kind (first hour, interior, last hour, before, after, "
         "naive) and a toggle sequence (set/reset, repeated, interleaved with toggles of earlier simulations). Oracle, "
         "whenever no simulation is switched on: identity_snapshot(now) == identity_snapshot(baseline) (id() of every "
         "input, link wrapper, list, calculated value and dict entry; reverse links; multiset of ancestor/child edges) "
-        "and snapshot values equal. Non-trivial = a simulation that recomputed >=1 value or raised after changes were "
+        "and snapshot values equal. In 60% of the cases 1-3 probe edits follow the simulations (an in-place operation "
+        "on a list that a simulation replaced, then ordinary edits): each must leave the model equal to a fresh build of "
+        "the same inputs. Non-trivial = a simulation that recomputed >=1 value or raised after changes were "
         "applied; distinct by case hash.")
 ASSUMPTIONS = ["one simulation switched on at a time (two simultaneous what-ifs on overlapping values are not specified)",
                "edge order inside children lists is free; the multiset of edges is compared"]
